@@ -290,6 +290,26 @@ protected:
       handleFrame(sid, *frame);
     }
 
+    // More unparsed bytes than the largest acceptable frame (payload of
+    // _maxFrameSize plus a 14-byte header) can occupy: the header at the front
+    // declares a frame that will never be accepted (too long, or a malformed
+    // control frame that parse() keeps reporting as incomplete). Fail the
+    // connection instead of buffering whatever the peer goes on sending.
+    if (localBuffer.size() - offset > _maxFrameSize + 14)
+    {
+      sendClose(sid, 1009, "Message Too Big");
+      if (_onError)
+      {
+        _onError(sid, "Frame exceeded maxFrameSize");
+      }
+      {
+        std::lock_guard<std::mutex> lock(_wsMutex);
+        _sessions.erase(sid);
+      }
+      closeSession(sid);
+      return;
+    }
+
     // Put unconsumed remainder back
     if (offset < localBuffer.size())
     {
@@ -409,6 +429,10 @@ private:
       if (session.fragmentBuffer.size() > _maxFrameSize)
       {
         tooLarge = true;
+        // Drop what was accumulated: otherwise every further continuation
+        // frame keeps growing the buffer without bound.
+        std::vector<std::uint8_t>().swap(session.fragmentBuffer);
+        session.fragmentOpcode = WsOpcode::CONTINUATION;
       }
       else if (frame.fin)
       {
